@@ -51,3 +51,27 @@ eigenvalue_le_gershgorin padding_shift_gershgorin padding_multiplier_pos max_ite
 dm_element_factor_tied diis_factor_value diis_factor_tied model_literals_tied sp2_eps_tied sp2_max_iter_value sp2_max_iter_tied padding_shift_constants""".split()]
 THEOREMS_C04 = ["C04." + t for t in """mixing_fixed_points mixing_alpha_one_all_fixed adaptive_mix_identity_at_fixed_point adaptive_mix_small_trace_counterexample diis_affine
 diis_coefficients_sum_one uhf_singlet_fock_equals_rhf uhf_singlet_one_center_terms same_stopping_rule passed_mono""".split()]
+
+THEOREMS_C06 = ["C06." + t for t in """ko_symmetric ko_positive ko_le_coulomb ko_lt_coulomb ko_one_center_limit ko_eq ri_ss_ss_is_ko ri_eq_multipole_sums riHH_eq_riSpec
+ri21_axial_identity ri21_closed specQxyQxy_closed ri21_ne_square_quadrupole_counterexample riXH_eq_multipole_sums riXH_eq_riHH_prefix riHyd_eq
+K_ind_4_is_tril_index K_ind_4_symmetric K_ind_4_range WEIGHT_10_spec TRIL_IDX_4_row_major TRIL_IDX_4_onto K_ind_4_inverts_TRIL table_shapes eri_bra_ket_symmetry eri_pair_symmetry
+two_center_G_linear G_linear two_center_eq_textbook two_center_G_symmetric G_self_adjoint one_center_factors_published one_center_entries oneCenterERI_symmetry oneCenterERI_values
+rho_residual_characterisation dipole_self_interaction quadrupole_self_interaction hspOfD_of_rho hppOfQ_of_rho rho1_residual_strictAnti rho1_unique rho2_residual_strictAnti rho2_unique""".split()] + \
+    [f"C06.ri_eq_spec_{k}" for k in range(22)]
+
+THEOREMS_C07 = ["C07." + t for t in """implicit_adjoint picard_fixed_point_is_adjoint adjoint_solution_exists adjoint_solution_unique picard_error_step picardIter_zero_eq_neumann picard_converges
+root_implicit_derivative h1_hasDerivAt_curve h2_hasDerivAt_curve dh1dρ_neg rho_backward_true_correct rho1_backward_true_correct_branch rho2_backward_true_correct_branch
+rho1_code_times_true rho2_code_times_true rho_backward_code_is_reciprocal_counterexample residual_forms_agree residual_forms_agree2 ParamPack.param_identity_preserved_iff_no_copy""".split()]
+THEOREMS_C15 = ["C15." + t for t in """nested_histories_noninterfering nested_after_any_prefix nested_prefix_characterisation interleaving_leak_counterexample fixed_model_noninterfering nested_imp_preceded""".split()]
+THEOREMS_C16 = ["C16." + t for t in """ritz_residual_bound rayleigh_upper_bound ritz_value_ge_of_spectrum_ge residual_two_norm_le davidson_terminates returned_residuals_partial
+empty_expansion_exit_witness rpa_le_cis_2x2""".split()]
+THEOREMS_C18 = ["C18." + t for t in """accepts_implies_wellformed_partial missing_nocc_guard_counterexample wellformed_implies_acceptsPreFix overcharged_rhf_accepted accepts_iff_wellformed_of_mult_pos
+wellformed_implies_accepts nonpositive_multiplicity_accepted_counterexample acceptsFixed_iff_wellformed guards_fire_before_results illformed_yields_no_result firstError_error_iff
+rowSorted_iff tda_alias_rejected_on_heterogeneous_witness""".split()]
+THEOREMS_C17 = ["C17." + t for t in """hop_prob_bounds hop_prob_sum_eq_one_of_normalised hop_prob_active_zero chooseHop_target_has_positive_probability chooseHop_zero_draw_counterexample
+rescale_fixed_conserves_energy rescale_conserves_energy rescale_sign_zero_defect rescale_sign_zero_counterexample frustrated_hop_untouched accepted_iff flow_conserves_norm
+rk4_two_state_norm_defect rk4_two_state_norm_defect_propagate relabel_is_permutation_iff_bijective relabel_perm_of_bijective relabel_is_permutation_iff_involution
+relabel_three_cycle_counterexample rowwise_isolation isolation_up_to_nsub nsub_batch_global_counterexample nsub_changes_other_trajectory""".split()]
+THEOREMS_C20 = ["C20." + t for t in """firstWithin_spec run_spec sd_eval_count sd_returns_last_evaluated sd_message_rule sd_converged_message_sound sd_converged_at_cap_reports_not_converged
+sd_max_evl_zero sd_full_control_flow sd_coordinates_one_update_past descent_lemma descent_step_decreases padding_never_moves coordinate_fixed_iff_force_zero padding_never_moves_batch
+update_uses_own_force_only path_independent_of_batch_mates path_length_is_batch_global""".split()]
